@@ -25,6 +25,7 @@ def run_simple(cfg):
     orng.CONFIG["factory"] = None
     orng.CONFIG["seed"] = cfg["seed"]
     mon = Monitor(p["like"], p["prior"], ns, keep_points=True)
+    mon.ret_dtype = cfg.get("callback_dtype")
     flow = AnalyticFlow(2, seed=cfg["seed"] + 1000, xp_name=ns, dtype=get_dtype(ns, cfg.get("dtype")), **p["flow"])
     a = Aspire(log_likelihood=mon.log_likelihood, log_prior=mon.log_prior, dims=2, parameters=p["parameters"],
                prior_bounds=p["bounds"], periodic_parameters=p["periodic"], flow=flow, xp=xp, dtype=get_dtype(ns, cfg.get("dtype")))
